@@ -55,3 +55,53 @@ contract("SourceLinesAdapter.get_line", source=M + "SourceLinesAdapter.get_line"
          requires=WF + ["1 <= lineno and lineno <= len(val(self.starts)) - 1"],
          ensures=["result == self.code[val(self.starts)[lineno - 1]:val(self.starts)[lineno] - 1]",
                   "forall(lambda p: implies(0 <= p and p < len(result), result[p] != '\\n'))"])
+
+REG.records["SourceLinesAdapter"].pyclass = "rope.base.codeanalyze:SourceLinesAdapter"
+
+# ---- property-level lemmas over the contracts above (never over bodies) -----------------------
+L = {"self": "SourceLinesAdapter", "l": "Int", "o": "Int", "r1": "Int", "r2": "Int", "r3": "Int"}
+lemma("line_number_of_line_start", L, WF + ["1 <= l and l <= len(val(self.starts)) - 1"],
+      "r2 == l", strmode="intseq",
+      uses=[("SourceLinesAdapter.get_line_start", {"self": "self", "lineno": "l", "result": "r1"}),
+            ("SourceLinesAdapter.get_line_number", {"self": "self", "offset": "r1", "result": "r2"})],
+      note="offset->line is a left inverse of line->offset")
+lemma("offset_within_its_line", L, WF + ["0 <= o and o <= len(self.code)"],
+      "r2 <= o and o <= r3", strmode="intseq",
+      uses=[("SourceLinesAdapter.get_line_number", {"self": "self", "offset": "o", "result": "r1"}),
+            ("SourceLinesAdapter.get_line_start", {"self": "self", "lineno": "r1", "result": "r2"}),
+            ("SourceLinesAdapter.get_line_end", {"self": "self", "lineno": "r1", "result": "r3"})],
+      note="line_start(line_number(o)) <= o <= line_end(line_number(o))")
+
+
+# ---- bounded stand-in (B3): the same contracts evaluated natively on the real class -----------
+def _texts(tier, seed):
+    import itertools
+    alpha = "a\n" if tier == "quick" else "a\n\r "
+    n = 6 if tier == "quick" else 7
+    for k in range(n + 1):
+        for t in itertools.product(alpha, repeat=k):
+            yield "".join(t)
+
+
+def _lines_case(code):
+    import bisect
+    from rope.base.codeanalyze import SourceLinesAdapter
+    a = SourceLinesAdapter(code)
+    st = a.starts
+    nl = [i + 1 for i, c in enumerate(code) if c == "\n"]
+    if st != [0] + nl + [len(code) + 1]:
+        return {"status": "fail", "why": "starts != positions after each newline", "clause": "lines_wf", "observed": {"starts": st}}
+    for o in range(len(code) + 1):
+        n = a.get_line_number(o)
+        if not (1 <= n <= a.length() and a.get_line_start(n) <= o <= a.get_line_end(n)):
+            return {"status": "fail", "why": "offset %d not inside its line %d" % (o, n), "clause": "offset_within_its_line", "observed": {"line": n}}
+    for l in range(1, a.length() + 1):
+        if a.get_line_number(a.get_line_start(l)) != l:
+            return {"status": "fail", "why": "line_number(line_start(%d)) != %d" % (l, l), "clause": "line_number_of_line_start"}
+        if "\n" in a.get_line(l) or a.get_line(l) != code.split("\n")[l - 1]:
+            return {"status": "fail", "why": "get_line(%d) wrong" % l, "clause": "get_line", "observed": {"line": a.get_line(l)}}
+    return {"status": "ok", "nontrivial": "\n" in code}
+
+
+bounded_check(name="lines-small-scope", fn=_lines_case, domain=_texts, exhaustive=True,
+              label="B3: every text of length <= 6 over {a,\\n} (thorough: <= 7 over {a,\\n,\\r,space}); line index, inverse laws, get_line vs str.split")
